@@ -582,14 +582,16 @@ func newCrash(c *Ctx) func(string) string {
 		if a["slow"] == "1" {
 			delay = -delay // negative: the step is only slow, the process is not killed at the point
 		}
-		if strings.HasPrefix(line, "run3 ") {
-			role := a["victim"]
-			if role != "leader" {
-				role = "follower"
+		return retryHarness(c, 3, func() string {
+			if strings.HasPrefix(line, "run3 ") {
+				role := a["victim"]
+				if role != "leader" {
+					role = "follower"
+				}
+				return runCrash3(c, seed, point, k, n, delay, win, role, phase)
 			}
-			return runCrash3(c, seed, point, k, n, delay, win, role, phase)
-		}
-		return runCrash(c, seed, point, k, n, delay, win, killAfter, engine, phase)
+			return runCrash(c, seed, point, k, n, delay, win, killAfter, engine, phase)
+		})
 	}
 }
 
